@@ -2,6 +2,7 @@
 C19 — Watchdog requests a restart only after the tolerated run of consecutive failures.
 -/
 import BV.Model.Watchdog
+import BV.Proofs.Src.Wd
 namespace BV.Props.C19
 open BV.Watchdog BV.Gen.App
 
@@ -103,5 +104,64 @@ theorem c19_counter_advances (v : Nat) (hv : v ≠ 4) (w : Wd) (o : Outcome) :
 /-- non-vacuity (for the generated constant): some word raises, and a success in between prevents it -/
 example : ((run 8 {} (List.replicate (maxWatchdogFailures + 1) .timeout)).map (·.1)).getLast? = some true := by decide
 example : ((run 8 {} (List.replicate maxWatchdogFailures .timeout ++ [.ok, .timeout])).map (·.1)).getLast? = some false := by decide
+
+/-! ### the same statements over the coroutine generated from `ControllerApplication._watchdog_feed` (BV/Gen/SrcWd.lean)
+
+The feed is translated from the syntax tree on every run (awaited keep-alive calls are calls on a scripted command layer; the
+statements that only touch zigpy's counter objects are pinned by their text); `BV.Proofs.Src.Wd` proves one feed to be one step
+`feed` of the model above.  A feed has *two* awaited calls on versions other than 4 (the counter read and the free-buffer read): a
+counted exception out of either makes it a failed feed. -/
+section Src
+open BV.Py BV.Src.Wd BV.Proofs.Src.Wd
+
+/-- a feed whose calls are all answered: the model's successful step (the count is cleared, nothing is raised) -/
+theorem c19_src_feed_ok (a : WdApp) (rest : List WResp) :
+    (a.version = 4 → a.script = .ok :: rest → FeedRel a (watchdog_feed a) .ok "") ∧
+    (∀ b, a.version ≠ 4 → a.script = .ok :: .buffers b :: rest → FeedRel a (watchdog_feed a) .ok "") :=
+  ⟨fun hv hs => (feed_v4_ok a rest hv hs).1, fun b hv hs => (feed_ok a rest b hv hs).1⟩
+
+/-- a feed in which a call raises a counted class (timeout, EZSP error or a subclass): the model's failed step, whichever of the
+feed's calls it was -/
+theorem c19_src_feed_fail (a : WdApp) (rest : List WResp) (c : String) (hc : c ∈ counted) :
+    (a.version = 4 → a.script = .raises c :: rest → FeedRel a (watchdog_feed a) .timeout c) ∧
+    (a.version ≠ 4 → a.script = .raises c :: rest → FeedRel a (watchdog_feed a) .timeout c) ∧
+    (a.version ≠ 4 → a.script = .ok :: .raises c :: rest → FeedRel a (watchdog_feed a) .timeout c) :=
+  ⟨fun hv hs => (feed_v4_fail a rest c hc hv hs).1, fun hv hs => (feed_fail_first a rest c hc hv hs).1,
+   fun hv hs => (feed_fail_second a rest c hc hv hs).1⟩
+
+/-- **exactly when** (source level): a failed feed raises iff the count it arrives with is already at the tolerated maximum; a
+successful one never raises and clears the count -/
+theorem c19_src_raise_iff (a : WdApp) (rest : List WResp) (c : String) (hc : c ∈ counted) (hv : a.version ≠ 4)
+    (hs : a.script = .raises c :: rest) :
+    ((watchdog_feed a).1 = .error (.raised c) ↔ a.failures ≥ maxWatchdogFailures) ∧
+    ((watchdog_feed a).1 = .ok () ↔ a.failures < maxWatchdogFailures) ∧
+    (watchdog_feed a).2.failures = a.failures + 1 := by
+  obtain ⟨h1, h2, -, -⟩ := (feed_fail_first a rest c hc hv hs).1
+  have hf : (feed a.version (absW a) .timeout).2.1 = decide (a.failures + 1 > maxWatchdogFailures) := by
+    simp [feed, Outcome.failed, absW]
+  have hn : (feed a.version (absW a) .timeout).1.failures = a.failures + 1 := by
+    simp [feed, Outcome.failed, absW]
+  rw [hf] at h2
+  refine ⟨?_, ?_, ?_⟩
+  · rw [h2]
+    by_cases h : a.failures + 1 > maxWatchdogFailures
+    · simp [h]; omega
+    · simp [h]; omega
+  · rw [h2]
+    by_cases h : a.failures + 1 > maxWatchdogFailures
+    · simp [h]; omega
+    · simp [h]; omega
+  · have := congrArg Wd.failures h1
+    rw [hn] at this
+    exact this
+
+/-- non-vacuity: four failures tolerated, the fifth raises; the periodic read-and-clear at the period boundary -/
+example : (watchdog_feed { version := 8, failures := 4, script := [.raises "TimeoutError"] }).1 = .error (.raised "TimeoutError") := by
+  decide +kernel
+example : (watchdog_feed { version := 8, failures := 3, script := [.raises "EzspError"] }).1 = .ok () := by decide +kernel
+example : (watchdog_feed { version := 8, feed_counter := 179, script := [.ok, .buffers (some 7)] }).2.trace =
+    [.readAndClearCounters, .countersUpdate, .countersReset, .getFreeBuffers, .buffersSet (some 7)] := by decide +kernel
+
+end Src
 
 end BV.Props.C19
